@@ -11,10 +11,19 @@
 //! virtual sleep" (all pacing delays of the harness are at most 20 ms). Every message carries a
 //! unique body (`source << 32 | n` in one of several Recon shapes) unless its kind has no body;
 //! messages without a unique body are matched by count.
+//!
+//! A paused clock only advances when nothing is runnable, so a system under test that stays
+//! runnable for ever (two tasks answering each other's frames without end) would starve every
+//! timer of the harness. Two logical step budgets end such a case and classify it (`Abort`): the
+//! resolver's count of `FindNode` requests against the request envelopes written, and the
+//! per-task poll budget of `Guard`. Wall-clock time is never consulted.
 
 use std::collections::{HashMap, HashSet};
+use std::future::Future;
 use std::num::NonZeroUsize;
+use std::pin::Pin;
 use std::sync::{Arc, Mutex};
+use std::task::{Context, Poll};
 use std::time::Duration;
 
 use bytes::{Bytes, BytesMut};
@@ -53,9 +62,12 @@ pub const RULE_DUPLEX: &str = "two RemoteTasks joined by tokio::io::duplex (buff
     is one that was sent, with kind, node, lane and body unchanged and origin = the task's id; per (source, endpoint) arrivals in send order, \
     no duplicates; a message is lost only if its endpoint detached after the send (agents) or was not attached throughout (downlinks); \
     every non-command request to an unknown node yields one @unlinked @nodeNotFound at the subscribed downlinks; nothing arrives that was \
-    not sent; FindNode carries an address that was written; the system never wedges (virtual time advances only when nothing is runnable, \
-    so: no send, arrival or script end during 2 x 50 ms + 6 s while a source is still blocked, or a probe AttachDownlink unconfirmed after \
-    30 s, means for ever). Non-trivial when at least two sources delivered to at least two endpoints and some writer hit back-pressure \
+    not sent; a frame whose body is the body of a written frame followed by a complete envelope is two envelopes written as one frame; \
+    FindNode carries an address that was written, and a side is never asked for more nodes than request envelopes were written to it (the \
+    case ends there: tasks acting on envelopes nobody wrote can feed each other for ever); the system never wedges (virtual time advances \
+    only when nothing is runnable, so: no send, arrival or script end during 2 x 50 ms + 6 s while a source is still blocked, or a probe \
+    AttachDownlink unconfirmed after 30 s, means for ever) and never spins (a task polled more than 1000 x (scripted messages + endpoints + \
+    50) times at one virtual instant is dropped and reported; the unchanged tree stays below 1% of that). Non-trivial when at least two sources delivered to at least two endpoints and some writer hit back-pressure \
     (Pending); distinct by hash of the global (endpoint, frame) arrival order";
 
 pub const RULE_RAW: &str = "one RemoteTask (1-4 agents, 1-4 downlinks, 0-1 commanders, as in part socket) against a raw peer owned by the harness that speaks RFC 6455 \
@@ -67,7 +79,8 @@ pub const RULE_RAW: &str = "one RemoteTask (1-4 agents, 1-4 downlinks, 0-1 comma
     mutation that the real reader rejects) followed by further valid frames; random mutations that the real reader accepts are treated as \
     the valid envelope it decodes. The peer also reads and decodes (peel_envelope_header_str) every text frame the task writes. Oracle: as \
     in part socket for both directions (the peer is an endpoint for everything the task's agents and downlinks write); nothing derived \
-    from the invalid frame or from @auth/@deauth reaches any agent or downlink; the task does not panic and does not wedge. Non-trivial \
+    from the invalid frame or from @auth/@deauth reaches any agent or downlink; the task does not panic, does not wedge and does not spin \
+    (same step budgets as part socket). Non-trivial \
     when frames were delivered in both directions and, if an invalid frame was injected, the task ended; distinct by hash of the global \
     arrival order";
 
@@ -466,6 +479,25 @@ fn gen_world(rng: &mut Rng, pool: &[String], raw: bool) -> World {
     World { sides, duplex_buf, symmetric }
 }
 
+impl World {
+    /// (messages in all scripts, endpoints and one-way sources) - what the step budget scales with.
+    fn size(&self) -> (u64, u64) {
+        let sends = |sc: &[Step]| sc.iter().filter(|s| matches!(s, Step::Send(..))).count() as u64;
+        let mut n = 0;
+        let mut eps = 0;
+        for s in &self.sides {
+            for node in &s.nodes {
+                eps += node.instances.len() as u64;
+                n += node.instances.iter().map(|i| sends(&i.script)).sum::<u64>();
+            }
+            eps += (s.downlinks.len() + s.commanders.len()) as u64;
+            n += s.downlinks.iter().map(|d| sends(&d.script)).sum::<u64>();
+            n += s.commanders.iter().map(|c| sends(&c.script)).sum::<u64>();
+        }
+        (n, eps)
+    }
+}
+
 // ------------------------------------------------------------------------------------------------
 // Log shared by all actors of a case
 
@@ -512,6 +544,23 @@ struct LogInner {
     finished_sources: HashSet<u32>,
     /// Attach requests dropped or refused (legitimate only when the task was stopping).
     attach_unconfirmed: u64,
+    /// Set when a logical step budget of the case was exceeded: both tasks are dropped at their
+    /// next poll (see `Guard`) and the case is judged on what was observed up to then.
+    abort: Option<Abort>,
+    /// Per task: (side, most polls at one virtual instant, polls in total, budget), recorded when it ends.
+    task_polls: Vec<(usize, u64, u64, u64)>,
+}
+
+/// Why a case was cut short. Both are decided on logical steps, never on wall-clock time.
+#[derive(Clone, Debug, PartialEq, Eq)]
+enum Abort {
+    /// The task of `side` was polled `polls` times at one virtual instant: it keeps itself (or its
+    /// peer) runnable for ever, so the paused clock can never advance and no timer-based
+    /// quiescence test would ever run.
+    Spinning { side: usize, polls: u64, budget: u64 },
+    /// The resolver of `side` was asked for more nodes than request envelopes were written to that
+    /// side (every incoming request envelope causes at most one FindNode).
+    ExcessFindNode { side: usize },
 }
 
 type Log = Arc<Mutex<LogInner>>;
@@ -536,6 +585,83 @@ async fn yields(n: u32) {
         tokio::task::yield_now().await;
     }
 }
+
+/// Step budget around one `RemoteTask` future (everything a task does happens inside polls of this
+/// one future). On a paused clock virtual time advances only when nothing is runnable, so tasks
+/// that keep each other busy for ever (an endless exchange of frames, a self-waking loop) would
+/// starve every timer of the harness and the case would never end. The guard counts the polls of
+/// the task at the current virtual instant; beyond the budget (orders of magnitude above what the
+/// finite scripts of the case can cause, see `spin_budget`) it drops the task and records
+/// `Abort::Spinning`. It also drops the task as soon as any actor of the case recorded an abort.
+struct Guard<F> {
+    inner: Option<Pin<Box<F>>>,
+    log: Log,
+    side: usize,
+    budget: u64,
+    instant: tokio::time::Instant,
+    polls_here: u64,
+    max_here: u64,
+    total: u64,
+}
+
+impl<F> Guard<F> {
+    fn new(inner: F, log: Log, side: usize, budget: u64) -> Self {
+        Guard { inner: Some(Box::pin(inner)), log, side, budget, instant: tokio::time::Instant::now(), polls_here: 0, max_here: 0, total: 0 }
+    }
+
+    fn end(&mut self, l: &mut LogInner) {
+        self.inner = None;
+        l.task_polls.push((self.side, self.max_here.max(self.polls_here), self.total, self.budget));
+    }
+}
+
+impl<F> Unpin for Guard<F> {}
+
+impl<F: Future<Output = ()>> Future for Guard<F> {
+    type Output = ();
+
+    fn poll(self: Pin<&mut Self>, cx: &mut Context<'_>) -> Poll<()> {
+        let this = self.get_mut();
+        if this.inner.is_none() {
+            return Poll::Ready(());
+        }
+        let now = tokio::time::Instant::now();
+        if now != this.instant {
+            this.instant = now;
+            this.max_here = this.max_here.max(this.polls_here);
+            this.polls_here = 0;
+        }
+        this.polls_here += 1;
+        this.total += 1;
+        let log = this.log.clone();
+        {
+            let mut l = log.lock().unwrap();
+            if l.abort.is_none() && this.polls_here > this.budget {
+                l.abort = Some(Abort::Spinning { side: this.side, polls: this.polls_here, budget: this.budget });
+            }
+            if l.abort.is_some() {
+                this.end(&mut l);
+                return Poll::Ready(());
+            }
+        }
+        let r = this.inner.as_mut().map(|f| f.as_mut().poll(cx)).unwrap_or(Poll::Ready(()));
+        if r.is_ready() {
+            let mut l = log.lock().unwrap();
+            this.end(&mut l);
+        }
+        r
+    }
+}
+
+/// Polls of one task at one virtual instant that the finite input of a case cannot explain: the
+/// scripts of a case hold `sends` messages in total; moving one message costs each task a handful
+/// of polls, attaching an endpoint a few more. Measured on the unchanged tree (counters
+/// `step-budget-used/..`): no task of any case of 5 seeds comes within 1% of this budget.
+fn spin_budget(sends: u64, endpoints: u64) -> u64 {
+    SPIN_FACTOR * (sends + endpoints + 50)
+}
+
+const SPIN_FACTOR: u64 = 1_000;
 
 /// Run a script against a request or response writer.
 async fn run_script<W, F, M>(log: Log, side: usize, source: u32, script: Vec<Step>, mut writer: W, to_msg: F)
@@ -602,7 +728,11 @@ async fn agent_reader(log: Log, ep: Ep, reader: ByteReader, spec: ReaderSpec, ke
                 pace(spec.pace, n).await;
             }
             Some(Err(e)) => {
-                log.lock().unwrap().problems.push(("undecodable-bytes-on-agent-channel".into(), format!("the task wrote bytes the request decoder rejects: {e}"), Json::Null));
+                let mut l = log.lock().unwrap();
+                // A task the harness dropped at a step budget may have been in the middle of a frame.
+                if l.abort.is_none() {
+                    l.problems.push(("undecodable-bytes-on-agent-channel".into(), format!("the task wrote bytes the request decoder rejects: {e}"), Json::Null));
+                }
                 return;
             }
             None => return,
@@ -627,7 +757,10 @@ async fn downlink_reader(log: Log, ep: Ep, reader: ByteReader, spec: ReaderSpec,
                 pace(spec.pace, n).await;
             }
             Some(Err(e)) => {
-                log.lock().unwrap().problems.push(("undecodable-bytes-on-downlink-channel".into(), format!("the task wrote bytes the response decoder rejects: {e}"), Json::Null));
+                let mut l = log.lock().unwrap();
+                if l.abort.is_none() {
+                    l.problems.push(("undecodable-bytes-on-downlink-channel".into(), format!("the task wrote bytes the response decoder rejects: {e}"), Json::Null));
+                }
                 return;
             }
             None => return,
@@ -642,7 +775,29 @@ async fn resolver(log: Log, side: usize, spec: SideSpec, mut find_rx: mpsc::Rece
             log.lock().unwrap().problems.push(("findnode-not-warp".into(), "RemoteTask asked for an HTTP connection".into(), Json::Null));
             continue;
         };
-        log.lock().unwrap().finds.push((side, node.to_string(), lane.as_ref().map(|l| l.to_string()), source == spec.id));
+        {
+            let mut l = log.lock().unwrap();
+            l.finds.push((side, node.to_string(), lane.as_ref().map(|l| l.to_string()), source == spec.id));
+            // Every request envelope that arrives causes at most one FindNode (none while its
+            // node has a live route), and a request is logged before it is written: more
+            // requests for a node than request envelopes written to this side so far means that
+            // the task acts on envelopes nobody wrote. Nothing bounds how long that goes on
+            // (two tasks can feed each other for ever), so the case ends here.
+            let asked = l.finds.iter().filter(|f| f.0 == side).count();
+            let written = l.sent.iter().filter(|s| s.side != side && s.frame.kind.is_request()).count();
+            if asked > written {
+                if l.abort.is_none() {
+                    l.abort = Some(Abort::ExcessFindNode { side });
+                    l.problems.push((
+                        "more-findnode-requests-than-request-envelopes-written".into(),
+                        "the task asked for the agent of a node more often than request envelopes were written to it: it acts on envelopes nobody wrote".into(),
+                        json!({"findnode_requests": asked, "request_envelopes_written_to_this_side": written, "node": node.to_string(), "lane": lane.as_ref().map(|l| l.to_string())}),
+                    ));
+                }
+                // Not answered: both tasks are dropped at their next poll.
+                continue;
+            }
+        }
         match spec.nodes.iter().position(|n| n.name == node.as_str()) {
             None => {
                 let _ = promise.send(Err(NoSuchAgent { node, lane }.into()));
@@ -759,7 +914,7 @@ struct SideHandles {
 }
 
 /// Start one RemoteTask with its resolver, downlinks and commanders. Script tasks are reported on `scripts`.
-fn start_side(log: &Log, side: usize, spec: &SideSpec, ws: Ws, rng: &mut Rng, scripts: &mpsc::UnboundedSender<tokio::task::JoinHandle<()>>) -> SideHandles {
+fn start_side(log: &Log, side: usize, spec: &SideSpec, ws: Ws, rng: &mut Rng, scripts: &mpsc::UnboundedSender<tokio::task::JoinHandle<()>>, budget: u64) -> SideHandles {
     let (stop_tx, stop_rx) = trigger::trigger();
     let (attach_tx, attach_rx) = mpsc::channel(spec.attach_cap);
     let find_tx = if spec.has_find {
@@ -770,7 +925,8 @@ fn start_side(log: &Log, side: usize, spec: &SideSpec, ws: Ws, rng: &mut Rng, sc
         None
     };
     let task = RemoteTask::new(spec.id, stop_rx, ws, attach_rx, find_tx, nz(spec.reg_buf), Duration::from_secs(5));
-    let task = tokio::spawn(Jitter::new(task.run(), rng.fork(), spec.jitter));
+    // The guard sits inside the jitter: deferred polls do not count against the step budget.
+    let task = tokio::spawn(Jitter::new(Guard::new(task.run(), log.clone(), side, budget), rng.fork(), spec.jitter));
     for (idx, d) in spec.downlinks.iter().enumerate() {
         let _ = scripts.send(tokio::spawn(downlink(log.clone(), side, idx, d.clone(), attach_tx.clone())));
     }
@@ -914,6 +1070,25 @@ fn ep_name(ep: Ep) -> &'static str {
 }
 
 const NODE_NOT_FOUND: &[u8] = b"@nodeNotFound";
+
+/// If the body of `arrived` ends in a complete WARP envelope (as read by the real reader): that
+/// envelope, and whether what precedes it is the body of a frame `known` to have been written with
+/// the same kind, node and lane.
+fn second_envelope(arrived: &Frame, known: impl Fn(&Frame) -> bool) -> Option<(pure::Peeled, bool)> {
+    let body = std::str::from_utf8(&arrived.body).ok()?;
+    for (pos, _) in body.match_indices('@') {
+        // Only the eight deliverable kinds; attributes of ordinary bodies are not envelopes.
+        let Ok(p) = pure::peel(&body[pos..]) else { continue };
+        if Kind::from_name(p.kind).is_none() {
+            continue;
+        }
+        let mut first = arrived.clone();
+        first.body = body[..pos].as_bytes().to_vec();
+        let first_known = known(&first);
+        return Some((p, first_known));
+    }
+    None
+}
 
 /// Judge a finished case. `task_stopped_early`: the (raw flavour's) task closed the socket
 /// because of an injected invalid frame, so nothing written after that is owed.
@@ -1077,6 +1252,23 @@ fn evaluate(world: &World, log: &LogInner, raw: bool, task_stopped_early: bool, 
                 receiving_eps.insert(ei);
             }
             None => {
+                // A body that is "the body of a message written for this address, followed by a
+                // complete envelope" is two frames written as one: the reader takes the second
+                // envelope for part of the first one's body (no body the harness writes contains
+                // an envelope header). Reported under its own rule, not as a frame nobody wrote.
+                if let Some((second, first_known)) = second_envelope(&a.frame, |f| msgs.iter().any(|m| *m.frame == *f)) {
+                    if first_known {
+                        let what = if second.kind == "unlinked" && second.body.as_bytes().starts_with(NODE_NOT_FOUND) { "node-not-found-reply".to_string() } else { second.kind.to_string() };
+                        vd.out.count("frames-carrying-a-second-envelope");
+                        vd.v(
+                            format!("two-envelopes-in-one-frame/second={what}"),
+                            "an envelope was written to the socket appended to an earlier frame's bytes: its addressee never sees it, and the earlier frame's addressee receives that frame again with the envelope as (part of) its body",
+                            json!({"arrived": a.frame.show(), "endpoint": {"kind": ep_name(e.ep), "node": e.node, "lane": e.lane},
+                                   "second_envelope": {"kind": second.kind, "node": second.node, "lane": second.lane, "body": second.body.chars().take(80).collect::<String>()}}),
+                        );
+                        continue;
+                    }
+                }
                 *pool[ei].entry(a.frame.clone()).or_insert(0) += 1;
             }
         }
@@ -1125,8 +1317,9 @@ fn evaluate(world: &World, log: &LogInner, raw: bool, task_stopped_early: bool, 
             }
         }
         if is_owed {
+            let kind = if m.source >= NOTFOUND_SRC { "node-not-found-reply" } else { m.frame.kind.name() };
             vd.v(
-                format!("lost/{}/to-{}", m.frame.kind.name(), ep_name(e.ep)),
+                format!("lost/{kind}/to-{}", ep_name(e.ep)),
                 "a message never arrived although source and addressee stayed attached",
                 json!({"sent": m.frame.show(), "source": m.source, "seq": m.seq, "endpoint": {"node": e.node, "lane": e.lane}}),
             );
@@ -1169,6 +1362,39 @@ fn evaluate(world: &World, log: &LogInner, raw: bool, task_stopped_early: bool, 
     out.nontrivial = delivering_sources.len() >= 2 && receiving_eps.len() >= 2 && log.pending_hits > 0;
 }
 
+/// A case that was cut short by a logical step budget: say so (the excess-FindNode rule has
+/// already filed its problem, reported by `evaluate`). Returns whether the case was cut short.
+fn report_abort(l: &LogInner, pfx: &str, out: &mut CaseOut) -> bool {
+    for (_, max_here, total, budget) in &l.task_polls {
+        out.add("task-polls", *total);
+        // How close a task comes to the step budget (most polls at one virtual instant).
+        let bucket = match max_here * 1000 / budget.max(&1) {
+            0 => "below-0.1%",
+            1..=9 => "0.1-1%",
+            10..=99 => "1-10%",
+            _ => "above-10%",
+        };
+        out.count(&format!("step-budget-used/{bucket}"));
+    }
+    match &l.abort {
+        None => false,
+        Some(Abort::ExcessFindNode { .. }) => {
+            out.count("cut-short/excess-findnode");
+            true
+        }
+        Some(Abort::Spinning { side, polls, budget }) => {
+            out.count("cut-short/spinning");
+            out.violation(
+                P,
+                format!("{pfx}/spinning"),
+                "a task stays runnable for ever at one virtual instant (polled far more often than the finite scripts of the case can explain): its messages never settle and no timer can fire",
+                json!({"side": side, "polls_at_one_virtual_instant": polls, "budget": budget, "sent": l.sent.len(), "arrived": l.arrivals.len(), "findnode_requests": l.finds.len()}),
+            );
+            true
+        }
+    }
+}
+
 /// Verbose aid: who is stuck in a case that did not settle.
 fn describe_stuck(world: &World, l: &LogInner) -> String {
     let mut o = format!("duplex buffer {}, symmetric {}\n", world.duplex_buf, world.symmetric);
@@ -1195,8 +1421,8 @@ fn describe_stuck(world: &World, l: &LogInner) -> String {
 }
 
 /// Oracle self-test (`--selftest drop|dup|misroute|swap|rename`): falsify the observation log of
-/// the duplex part in one place; the oracle must answer with the matching rule. Never used by
-/// `/verif/check`.
+/// the duplex part in one place; the oracle must answer with the matching rule. (`--selftest spin`
+/// instead shrinks the step budget of `Guard` to 20 polls.) Never used by `/verif/check`.
 fn inject_fault(l: &mut LogInner, fault: &str, rng: &mut Rng) {
     let unique: Vec<usize> = (0..l.arrivals.len()).filter(|i| !l.arrivals[*i].frame.body.is_empty() && l.arrivals[*i].frame.kind != Kind::Unlinked).collect();
     if unique.is_empty() {
@@ -1243,15 +1469,20 @@ pub fn duplex_case(rng: &mut Rng, pool: &[String], selftest: Option<&str>, out: 
     let result: Result<Settled, String> = rt.block_on(async {
         let (ws0, ws1) = fake_ws(world.duplex_buf);
         let (scripts_tx, scripts_rx) = mpsc::unbounded_channel();
-        let h0 = start_side(&log, 0, &world.sides[0], ws0, rng, &scripts_tx);
-        let h1 = start_side(&log, 1, &world.sides[1], ws1, rng, &scripts_tx);
+        let (sends, eps) = world.size();
+        // `--selftest spin`: a budget every busy case exceeds, to see the guard end a case.
+        let budget = if selftest == Some("spin") { 20 } else { spin_budget(sends, eps) };
+        let h0 = start_side(&log, 0, &world.sides[0], ws0, rng, &scripts_tx, budget);
+        let h1 = start_side(&log, 1, &world.sides[1], ws1, rng, &scripts_tx, budget);
         let mut r = settle(&log, scripts_rx, vec![]).await;
-        if r == Ok(Settled::Quiet) && !(responsive(&h0, 0).await && responsive(&h1, 1).await) {
+        // A case that blew a step budget (see `Abort`) lost its tasks: judged on that, not probed.
+        let aborted = log.lock().unwrap().abort.is_some();
+        if !aborted && r == Ok(Settled::Quiet) && !(responsive(&h0, 0).await && responsive(&h1, 1).await) {
             // Every script got its messages into its byte channel, yet the tasks are wedged.
             r = Ok(Settled::Frozen);
         }
         // Neither task may have ended on its own while the case was running.
-        if r.is_ok() && (h0.task.is_finished() || h1.task.is_finished()) {
+        if !aborted && r.is_ok() && (h0.task.is_finished() || h1.task.is_finished()) {
             log.lock().unwrap().problems.push(("task-ended-by-itself".into(), "a RemoteTask ended although nobody stopped it and the socket was healthy".into(), Json::Null));
         }
         h0.stop.trigger();
@@ -1278,6 +1509,9 @@ pub fn duplex_case(rng: &mut Rng, pool: &[String], selftest: Option<&str>, out: 
             out.inconclusive(why);
         }
         Ok(settled) => {
+            let cut_short = report_abort(&l, "socket", out);
+            // Nothing is owed by tasks the harness dropped; the wedge rule does not apply to them.
+            let settled = if cut_short { Settled::Quiet } else { settled };
             if settled == Settled::Frozen {
                 // Exact on a paused clock: no task is runnable, no timer is pending, every harness
                 // reader is waiting for its next frame, and yet some writer is blocked.
@@ -1302,7 +1536,7 @@ pub fn duplex_case(rng: &mut Rng, pool: &[String], selftest: Option<&str>, out: 
             if !out.violations.is_empty() || settled == Settled::Frozen {
                 out.log(|| describe_stuck(&world, &l));
             }
-            evaluate(&world, &l, false, false, settled == Settled::Frozen, &[], out);
+            evaluate(&world, &l, false, false, settled == Settled::Frozen || cut_short, &[], out);
             if out.violations.iter().any(|v| v.1.contains("/lost/")) {
                 out.log(|| describe_stuck(&world, &l));
             }
@@ -1554,7 +1788,8 @@ pub fn raw_case(rng: &mut Rng, pool: &[String], out: &mut CaseOut) {
         let (a, b) = duplex(world.duplex_buf);
         let ws0: Ws = WebSocket::from_upgraded(WebSocketConfig::default(), a, Some(NoExt), BytesMut::new(), Role::Server);
         let (scripts_tx, scripts_rx) = mpsc::unbounded_channel();
-        let h0 = start_side(&log, 0, s0, ws0, rng, &scripts_tx);
+        let (sends, eps) = world.size();
+        let h0 = start_side(&log, 0, s0, ws0, rng, &scripts_tx, spin_budget(sends + n_frames, eps + 1));
         // The peer speaks RFC 6455 through the harness' own framer; its two directions share nothing.
         let (mut peer_rx, mut peer_tx) = tokio::io::split(b);
         // Peer reader: everything the task writes.
@@ -1659,11 +1894,12 @@ pub fn raw_case(rng: &mut Rng, pool: &[String], out: &mut CaseOut) {
             KEEP.with(|k| k.borrow_mut().push(Box::new(peer_tx)));
         });
         let mut r = settle(&log, scripts_rx, vec![writer]).await;
-        if r == Ok(Settled::Quiet) && !responsive(&h0, 0).await {
+        let aborted = log.lock().unwrap().abort.is_some();
+        if !aborted && r == Ok(Settled::Quiet) && !responsive(&h0, 0).await {
             r = Ok(Settled::Frozen);
         }
         let ended = h0.task.is_finished();
-        if r.is_ok() && ended && !injected {
+        if !aborted && r.is_ok() && ended && !injected {
             log.lock().unwrap().problems.push(("task-ended-by-itself".into(), "the RemoteTask ended although every frame it received was a valid envelope".into(), json!({"close": log.lock().unwrap().peer_closed})));
         }
         h0.stop.trigger();
@@ -1687,7 +1923,8 @@ pub fn raw_case(rng: &mut Rng, pool: &[String], out: &mut CaseOut) {
     match result {
         Err(why) => out.inconclusive(why),
         Ok((settled, ended)) => {
-            let frozen = settled == Settled::Frozen;
+            let cut_short = report_abort(&l, "socket-raw", out);
+            let frozen = settled == Settled::Frozen && !cut_short;
             if frozen {
                 out.count(&format!("frozen/registration-buffer-{}", s0.reg_buf));
                 out.count(&format!("frozen/duplex-buffer-{}", world.duplex_buf));
@@ -1704,7 +1941,7 @@ pub fn raw_case(rng: &mut Rng, pool: &[String], out: &mut CaseOut) {
                            "downlinks_attached": l.dl_attach_done.len(), "downlinks": s0.downlinks.len(), "findnode_requests": l.finds.len()}),
                 );
             }
-            evaluate(&world, &l, true, ended, frozen, &markers, out);
+            evaluate(&world, &l, true, ended, frozen || cut_short, &markers, out);
             if injected {
                 out.count("invalid-frame-injected");
                 if ended {
